@@ -19,8 +19,18 @@ import (
 	"cosmossdk.io/x/feegrant"
 	codectypes "github.com/cosmos/cosmos-sdk/codec/types"
 	sdk "github.com/cosmos/cosmos-sdk/types"
+	bankkeeper "github.com/cosmos/cosmos-sdk/x/bank/keeper"
+	banktypes "github.com/cosmos/cosmos-sdk/x/bank/types"
+	ethcommon "github.com/ethereum/go-ethereum/common"
+	ethcrypto "github.com/ethereum/go-ethereum/crypto"
 	consensustypes "github.com/palomachain/paloma/v2/x/consensus/types"
+	skywaybindings "github.com/palomachain/paloma/v2/x/skyway/bindings"
+	skywaybindingstypes "github.com/palomachain/paloma/v2/x/skyway/bindings/types"
+	skywaykeeper "github.com/palomachain/paloma/v2/x/skyway/keeper"
 	skywaytypes "github.com/palomachain/paloma/v2/x/skyway/types"
+	tfbindings "github.com/palomachain/paloma/v2/x/tokenfactory/bindings"
+	tfbindingstypes "github.com/palomachain/paloma/v2/x/tokenfactory/bindings/types"
+	tokenfactorytypes "github.com/palomachain/paloma/v2/x/tokenfactory/types"
 	treasurykeeper "github.com/palomachain/paloma/v2/x/treasury/keeper"
 	treasurytypes "github.com/palomachain/paloma/v2/x/treasury/types"
 )
@@ -49,6 +59,11 @@ import (
 //        S an allowance), B (granted nothing), T; every order incl. the attack orders [G, B] and
 //        [B, G].  The decorator must check every message on its own: a grant from G is no
 //        authorisation for B's message; the whole tx must be rejected and nothing of B's change.
+//   dnh / cbh  directed multi-step histories (see "Directed multi-step histories" below): a denom
+//        handed over and then used by former admins / the account in its name / the new admin,
+//        also through the wasm bindings; batch confirmations with sender, orchestrator, eth signer,
+//        signing key and signed item chosen independently.  Monitors denom-cross-principal-write
+//        and confirm-not-validators-own-signature (the latter after EVERY delivery of the test).
 // The monitor is a diff of all store entries "attributed to B": every entry of
 // the paloma module stores + feegrant + bank + acc whose key or value contains
 // B's address bytes, one of its bech32 renderings (account, valoper) or its eth
@@ -526,6 +541,7 @@ func TestC03(t *testing.T) {
 	for _, p := range append(append([]c03Principal{}, users...), append(vals, sacrifice)...) {
 		byAddr[p.acc.Addr.String()] = p.pid
 	}
+	dir := newC03Dir(t, r, w, users, vals, byAddr, grants)
 
 	// one observed delivery
 	type obs struct {
@@ -717,6 +733,7 @@ func TestC03(t *testing.T) {
 		}
 		before := c03Attributed(w, fa.CtxCached(), victim)
 		noise := c03Attributed(w, c03EmptyBlock(w), victim)
+		cfBefore := dir.confirmSnapshot()
 		res := w.DeliverMulti(txSigners, msgs...)
 		after := c03Attributed(w, fa.CtxCached(), victim)
 		pre := res.BlockErr != "" && !res.Panicked
@@ -771,6 +788,7 @@ func TestC03(t *testing.T) {
 			resTok = "ok"
 		}
 		r.Op(line, fmt.Sprintf("ante=%s res=%s verdict=%s", map[bool]string{true: "pass", false: "rej"}[antePass], resTok, verdict))
+		dir.checkConfirms(cfBefore, line)
 		r.Stat("sc:multi")
 		if two {
 			r.Stat("multi:two-signers")
@@ -805,6 +823,13 @@ func TestC03(t *testing.T) {
 	}
 	for cases := 0; cases < r.N; cases++ {
 		w.Maintain()
+		// directed multi-step histories on top of the r.N scenario cases (own random stream)
+		switch cases % 10 {
+		case 3:
+			dir.denomHistory()
+		case 7:
+			dir.confirmHistory()
+		}
 		if r.Rng.Intn(10) < 3 {
 			multiCase()
 			continue
@@ -938,6 +963,7 @@ func TestC03(t *testing.T) {
 		o.authf = authorityFieldOf(m, msg, byAddr)
 		o.before = c03Attributed(w, fa.CtxCached(), victim)
 		o.noise = c03Attributed(w, c03EmptyBlock(w), victim)
+		cfBefore := dir.confirmSnapshot()
 		o.res = deliver()
 		o.after = c03Attributed(w, fa.CtxCached(), victim)
 		if p := faRecover(func() {
@@ -951,6 +977,7 @@ func TestC03(t *testing.T) {
 			o.pre = true // the transaction could not even be encoded / signed
 		}
 		record(o)
+		dir.checkConfirms(cfBefore, fmt.Sprintf("%s %s signer=%d creator=%d victim=%d redirected=%v", o.typ, o.sc, o.txSigner, o.creator, o.victim, o.redirected))
 		if sc == "b" {
 			rv := feegrant.NewMsgRevokeAllowance(B.acc.Addr, A.acc.Addr)
 			if g := fa.DeliverTx(B.acc, &rv); !g.OK() {
@@ -1033,4 +1060,727 @@ func TestC03MonitorSensitivity(t *testing.T) {
 	if lvl, diff := c03Change(before, c03Attributed(w, fa.CtxCached(), victim), noise); lvl != 0 {
 		t.Fatalf("a validator changing its own fee was attributed to a bystander: %v", diff)
 	}
+}
+
+// =====================================================================================
+// Directed multi-step histories (ops `dnh` and `cbh`) and the two resource-level monitors
+// =====================================================================================
+//
+// The per-message scenarios above always act on objects whose owner is the principal whose
+// address is part of the object's NAME (EnsureDenom(actor) never returns a denom whose admin is
+// somebody else) and always send batch confirmations whose orchestrator is the sender.  Two
+// whole classes of input are therefore driven here:
+//
+//   dnh  transferable ownership: a token-factory denom factory/<C>/<sub> is created, handed
+//        over (MsgChangeAdmin, also to "nobody"), handed on, and after every hand-over the
+//        FORMER admins, the creator named in the denom, the new admin, bystanders and grantees
+//        try every admin-gated operation on it (ChangeAdmin, Mint, Burn, SetDenomMetadata,
+//        skyway SetERC20ToTokenDenom), through signed transactions and through the wasm
+//        bindings of tokenfactory / skyway (the contract address is the actor there).
+//        Property evaluated on the implementation (monitor denom-cross-principal-write): what
+//        the chain keeps for a denom (authority metadata, bank metadata, supply, ERC20 bridge
+//        bindings) is its CURRENT admin's; it changes only through a transaction signed by
+//        that admin or by an address holding a fee grant from it.
+//
+//   cbh  batch confirmations where sender, orchestrator, eth signer, signing key and signed
+//        item are chosen INDEPENDENTLY (honest, relayed by somebody else, filed under another
+//        validator with the sender's own key and real signature, crossed key / signer, another
+//        batch's checkpoint, another compass id, v = 27/28 form, replays, non-validators).
+//        Property evaluated on the implementation after EVERY delivery of the whole test
+//        (monitor confirm-not-validators-own-signature): a confirmation filed under validator V
+//        names V's registered key on the batch's chain as eth signer and carries a signature
+//        that recovers (go-ethereum, independent of x/skyway/types) to that key over exactly
+//        the stored batch's checkpoint.
+//
+// Each history is ONE protocol line (the Lean driver for C03 is stateless between lines): the
+// model replays the whole history from the empty state and must reproduce every result and the
+// final ownership / confirmation set.
+
+type c03Dir struct {
+	t      *testing.T
+	r      *Rec
+	w      *ZooWorld
+	rng    *rand.Rand
+	users  []c03Principal
+	vals   []c03Principal // without the sacrificial validator
+	byAddr map[string]int // account bech32 -> principal id
+	byEth  map[string]int // lower-case hex eth address -> id of the validator whose key it is
+	grants map[[2]int]bool
+
+	denomSeq int
+	prevCP   []byte
+	tfWasm   interface {
+		DispatchMsg(sdk.Context, sdk.AccAddress, string, tfbindingstypes.Message) ([]sdk.Event, [][]byte, [][]*codectypes.Any, error)
+	}
+	skyWasm interface {
+		DispatchMsg(sdk.Context, sdk.AccAddress, string, skywaybindingstypes.Message) ([]sdk.Event, [][]byte, [][]*codectypes.Any, error)
+	}
+}
+
+func newC03Dir(t *testing.T, r *Rec, w *ZooWorld, users, vals []c03Principal, byAddr map[string]int, grants map[[2]int]bool) *c03Dir {
+	d := &c03Dir{t: t, r: r, w: w, users: users, vals: vals, byAddr: byAddr, grants: grants, byEth: map[string]int{},
+		// own stream: the directed histories must not shift the scenario choices of the main loop
+		rng: rand.New(rand.NewSource(r.Seed*104729 + 303))}
+	for _, v := range vals {
+		d.byEth[strings.ToLower(v.acc.EthAddr.Hex())] = v.pid
+	}
+	return d
+}
+
+// wasm messengers are built exactly as app.buildWasmMessageDecorator does (per call: the app may
+// have been restarted)
+func (d *c03Dir) wasm() bool {
+	a := d.w.FA.App()
+	bbk, ok := a.BankKeeper.(bankkeeper.BaseKeeper)
+	if !ok {
+		return false
+	}
+	d.tfWasm = tfbindings.NewMessenger(&bbk, &a.TokenFactoryKeeper)
+	d.skyWasm = skywaybindings.NewMessenger(skywaykeeper.NewMsgServerImpl(a.SkywayKeeper))
+	return true
+}
+
+func (d *c03Dir) pidOfAddr(addr string) int {
+	if addr == "" {
+		return 0
+	}
+	if p, ok := d.byAddr[addr]; ok {
+		return p
+	}
+	return 1
+}
+
+// ---- denoms ---------------------------------------------------------------------------
+
+// c03DenomState is everything the chain keeps FOR a denom, by component.
+func c03DenomState(w *ZooWorld, ctx sdk.Context, denom string) (admin string, exists bool, comp map[string]string) {
+	a := w.FA.App()
+	comp = map[string]string{}
+	dg := func(parts ...[]byte) string {
+		h := sha256.New()
+		for _, p := range parts {
+			fmt.Fprintf(h, "%d:", len(p))
+			h.Write(p)
+		}
+		return hex.EncodeToString(h.Sum(nil)[:8])
+	}
+	if md, err := a.TokenFactoryKeeper.GetAuthorityMetadata(ctx, denom); err == nil {
+		admin = md.Admin
+	} else {
+		admin = "?" + err.Error()
+	}
+	comp["admin"] = admin
+	var tf [][]byte
+	for _, kv := range c03DumpCtx(w.FA, ctx, "tokenfactory") {
+		if bytes.Contains(kv[0], []byte(denom)) || bytes.Contains(kv[1], []byte(denom)) {
+			tf = append(tf, kv[0], kv[1])
+			exists = true
+		}
+	}
+	comp["tokenfactory-records"] = dg(tf...)
+	if m, ok := a.BankKeeper.GetDenomMetaData(ctx, denom); ok {
+		bz, _ := m.Marshal()
+		comp["bank-metadata"] = dg(bz)
+		exists = true
+	} else {
+		comp["bank-metadata"] = "-"
+	}
+	comp["supply"] = a.BankKeeper.GetSupply(ctx, denom).Amount.String()
+	var binds []string
+	if all, err := a.SkywayKeeper.GetAllERC20ToDenoms(ctx); err == nil {
+		for _, b := range all {
+			if b != nil && b.Denom == denom {
+				binds = append(binds, "e>"+b.ChainReferenceId+"/"+strings.ToLower(b.Erc20))
+			}
+		}
+	}
+	if all, err := a.SkywayKeeper.GetAllDenomToERC20s(ctx); err == nil {
+		for _, b := range all {
+			if b != nil && b.Denom == denom {
+				binds = append(binds, "d>"+b.ChainReferenceId+"/"+strings.ToLower(b.Erc20))
+			}
+		}
+	}
+	sort.Strings(binds)
+	comp["bridge-binding"] = strings.Join(binds, ",")
+	return admin, exists, comp
+}
+
+func c03DenomDiff(a, b map[string]string) []string {
+	var out []string
+	for k, v := range a {
+		if b[k] != v {
+			out = append(out, k)
+		}
+	}
+	sort.Strings(out)
+	return out
+}
+
+// denomHistory: one `dnh` line.
+func (d *c03Dir) denomHistory() {
+	w, fa, rng, r := d.w, d.w.FA, d.rng, d.r
+	a := fa.App()
+	all := append(append([]c03Principal{}, d.users...), d.vals...)
+	perm := rng.Perm(len(all))
+	pool := []c03Principal{all[perm[0]], all[perm[1]], all[perm[2]], all[perm[3]]}
+	C := pool[0]
+	d.denomSeq++
+	sub := fmt.Sprintf("h%05d", d.denomSeq)
+	denom := "factory/" + C.acc.Addr.String() + "/" + sub
+	haveWasm := d.wasm()
+	// a hostile governance case may have left an unpayable creation fee behind
+	_ = w.God(func(ctx sdk.Context) error {
+		fee := a.TokenFactoryKeeper.GetParams(ctx).DenomCreationFee
+		if !fee.IsValid() || !a.BankKeeper.SpendableCoins(ctx, C.acc.Addr).IsAllGTE(fee) {
+			a.TokenFactoryKeeper.SetParams(ctx, tokenfactorytypes.DefaultParams())
+		}
+		return nil
+	})
+	byPid := map[int]c03Principal{}
+	for _, p := range pool {
+		byPid[p.pid] = p
+	}
+	other := func(not int) c03Principal {
+		for {
+			p := pool[rng.Intn(len(pool))]
+			if p.pid != not {
+				return p
+			}
+		}
+	}
+	cur := 0         // admin as last observed on the implementation (0: none)
+	var former []int // principals that were admin before (and the creator named in the denom)
+	created := false
+	steps := 5 + rng.Intn(4)
+	var toks, outs []string
+	line := func() string { return fmt.Sprintf("dnh %d %s", C.pid, strings.Join(toks, " ")) }
+	nontrivial := false
+	for i := 0; i < steps; i++ {
+		kind := []string{"chadmin", "mint", "burn", "setmeta", "bind"}[rng.Intn(5)]
+		var S c03Principal
+		switch x := rng.Intn(100); {
+		case cur > 1 && x < 40:
+			S = byPid[cur]
+		case len(former) > 0 && x < 75:
+			S = byPid[former[rng.Intn(len(former))]]
+		default:
+			S = pool[rng.Intn(len(pool))]
+		}
+		if S.acc == nil {
+			S = pool[rng.Intn(len(pool))]
+		}
+		if S.pid == cur && rng.Intn(100) < 45 {
+			kind = "chadmin" // hand-overs are what the histories are about
+		}
+		Cr, g := S, false
+		if cur > 1 && S.pid != cur && rng.Intn(5) == 0 {
+			Cr, g = byPid[cur], rng.Intn(2) == 0 // in the admin's name: without / with a fee grant
+		}
+		if i == 0 {
+			kind, S, Cr, g = "create", C, C, false
+			if rng.Intn(10) == 0 {
+				S, g = other(C.pid), rng.Intn(2) == 0
+			}
+		}
+		if !created && i > 2 {
+			break // nothing exists: two more attempts were enough
+		}
+		route := "t"
+		if haveWasm && Cr.pid == S.pid && rng.Intn(4) == 0 {
+			route = "w"
+		}
+		N := "-"
+		newAdmin := ""
+		if kind == "chadmin" {
+			switch x := rng.Intn(100); {
+			case x < 10 && route == "t":
+				N, newAdmin = "0", "" // renounce
+			case x < 16:
+				N, newAdmin = fmt.Sprint(Cr.pid), Cr.acc.Addr.String()
+			default:
+				p := other(Cr.pid)
+				N, newAdmin = fmt.Sprint(p.pid), p.acc.Addr.String()
+			}
+		}
+		if kind == "burn" {
+			// the admin burns from its own account: give every candidate something to burn
+			_ = w.God(func(ctx sdk.Context) error {
+				if _, ok := a.BankKeeper.GetDenomMetaData(ctx, denom); !ok {
+					return nil
+				}
+				c := sdk.NewCoins(sdk.NewInt64Coin(denom, 5))
+				if err := a.BankKeeper.MintCoins(ctx, tokenfactorytypes.ModuleName, c); err != nil {
+					return err
+				}
+				return a.BankKeeper.SendCoinsFromModuleToAccount(ctx, tokenfactorytypes.ModuleName, Cr.acc.Addr, c)
+			})
+		}
+		if g {
+			if gr := fa.GrantFee(Cr.acc, S.acc); !gr.OK() {
+				d.t.Fatalf("grant: %s %s", gr.Log, gr.BlockErr)
+			}
+			d.grants[[2]int{Cr.pid, S.pid}] = true
+		}
+		n := w.next()
+		erc20 := fmt.Sprintf("0x%040x", 0xD000000+n)
+		desc := fmt.Sprintf("dnh %d", n)
+		preAdmin, preExists, pre := c03DenomState(w, fa.CtxCached(), denom)
+		cfBefore := d.confirmSnapshot()
+		ok := false
+		if route == "t" {
+			var msg sdk.Msg
+			switch kind {
+			case "create":
+				msg = &tokenfactorytypes.MsgCreateDenom{Subdenom: sub}
+			case "chadmin":
+				msg = &tokenfactorytypes.MsgChangeAdmin{Denom: denom, NewAdmin: newAdmin}
+			case "mint":
+				msg = &tokenfactorytypes.MsgMint{Amount: sdk.NewInt64Coin(denom, 100)}
+			case "burn":
+				msg = &tokenfactorytypes.MsgBurn{Amount: sdk.NewInt64Coin(denom, 1)}
+			case "setmeta":
+				msg = &tokenfactorytypes.MsgSetDenomMetadata{DenomMetadata: banktypes.Metadata{Description: desc, Base: denom, Display: denom,
+					Name: "Dnh", Symbol: "DNH", DenomUnits: []*banktypes.DenomUnit{{Denom: denom, Exponent: 0}}}}
+			case "bind":
+				msg = &skywaytypes.MsgSetERC20ToTokenDenom{Denom: denom, ChainReferenceId: ZooChain, Erc20: erc20}
+			}
+			ok = w.Deliver(S.acc, Cr.acc, msg).OK()
+		} else {
+			err := w.God(func(ctx sdk.Context) error {
+				var err error
+				switch kind {
+				case "create":
+					_, _, _, err = d.tfWasm.DispatchMsg(ctx, S.acc.Addr, "", tfbindingstypes.Message{CreateDenom: &tfbindingstypes.CreateDenom{Subdenom: sub}})
+				case "chadmin":
+					_, _, _, err = d.tfWasm.DispatchMsg(ctx, S.acc.Addr, "", tfbindingstypes.Message{ChangeAdmin: &tfbindingstypes.ChangeAdmin{Denom: denom, NewAdminAddress: newAdmin}})
+				case "mint":
+					_, _, _, err = d.tfWasm.DispatchMsg(ctx, S.acc.Addr, "", tfbindingstypes.Message{MintTokens: &tfbindingstypes.MintTokens{Denom: denom, Amount: sdkmath.NewInt(100), MintToAddress: S.acc.Addr.String()}})
+				case "burn":
+					_, _, _, err = d.tfWasm.DispatchMsg(ctx, S.acc.Addr, "", tfbindingstypes.Message{BurnTokens: &tfbindingstypes.BurnTokens{Denom: denom, Amount: sdkmath.NewInt(1)}})
+				case "setmeta":
+					_, _, _, err = d.tfWasm.DispatchMsg(ctx, S.acc.Addr, "", tfbindingstypes.Message{SetMetadata: &tfbindingstypes.SetMetadata{Denom: denom, Metadata: tfbindingstypes.Metadata{
+						Description: desc, Base: denom, Display: denom, Name: "Dnh", Symbol: "DNH", DenomUnits: []tfbindingstypes.DenomUnit{{Denom: denom, Exponent: 0}}}}})
+				case "bind":
+					_, _, _, err = d.skyWasm.DispatchMsg(ctx, S.acc.Addr, "", skywaybindingstypes.Message{SetErc20ToDenom: &skywaybindingstypes.SetErc20ToDenom{
+						Erc20Address: erc20, TokenDenom: denom, ChainReferenceId: ZooChain}})
+				}
+				return err
+			})
+			ok = err == nil
+			if fa.Broken {
+				fa.Restart()
+				haveWasm = d.wasm()
+			}
+		}
+		postAdmin, postExists, post := c03DenomState(w, fa.CtxCached(), denom)
+		tok := fmt.Sprintf("%s;%s;%d;%d;%d;%s", kind, route, S.pid, Cr.pid, map[bool]int{false: 0, true: 1}[g], N)
+		toks = append(toks, tok)
+		res := "rej"
+		if ok {
+			res = "ok"
+			nontrivial = true
+		}
+		outs = append(outs, fmt.Sprintf("%s:%d", res, d.pidOfAddr(postAdmin)))
+		// --- the property on the implementation: the denom's state is its current admin's (before it
+		// exists: the account it is named after); it changes only with that principal's authorisation
+		if diff := c03DenomDiff(pre, post); len(diff) > 0 {
+			owner := preAdmin
+			if !preExists {
+				owner = C.acc.Addr.String()
+			}
+			authorised := owner != "" && (S.acc.Addr.String() == owner || d.grants[[2]int{d.pidOfAddr(owner), S.pid}])
+			if !ok || !authorised {
+				r.Hit("denom-cross-principal-write", fmt.Sprintf("state kept for denom factory/<%d>/%s (%v) changed by %s (route %s) signed by principal %d (creator %d, fee grant %v) although its admin at that time was principal %d (accepted=%v)",
+					C.pid, sub, diff, kind, route, S.pid, Cr.pid, g, d.pidOfAddr(owner), ok), line())
+			}
+			r.Stat("dnh:denom-state-changed")
+		}
+		d.checkConfirms(cfBefore, line())
+		r.Stat("dnh:" + kind + ":" + res)
+		if route == "w" {
+			r.Stat("dnh:route-wasm")
+		}
+		switch {
+		case cur > 1 && S.pid == cur && Cr.pid == cur:
+			r.Stat("dnh:by-current-admin")
+		case S.pid != cur && func() bool {
+			for _, f := range former {
+				if f == S.pid {
+					return true
+				}
+			}
+			return false
+		}():
+			r.Stat("dnh:by-former-admin-or-creator")
+		}
+		if g {
+			rv := feegrant.NewMsgRevokeAllowance(Cr.acc.Addr, S.acc.Addr)
+			if gr := fa.DeliverTx(Cr.acc, &rv); !gr.OK() {
+				d.t.Fatalf("revoke: %s %s", gr.Log, gr.BlockErr)
+			}
+			delete(d.grants, [2]int{Cr.pid, S.pid})
+		}
+		created = postExists
+		if np := d.pidOfAddr(postAdmin); np != cur {
+			if cur > 1 {
+				former = append(former, cur)
+			} else if created && len(former) == 0 && np != C.pid {
+				former = append(former, C.pid)
+			}
+			if cur > 1 || np > 1 {
+				r.Stat("dnh:admin-changed")
+			}
+			cur = np
+		}
+		if created && len(former) == 0 && cur != C.pid {
+			former = append(former, C.pid)
+		}
+	}
+	r.Op(line(), strings.Join(outs, ","))
+	r.Stat("sc:denom-history")
+	r.Case(line(), nontrivial)
+}
+
+// ---- batch confirmations -------------------------------------------------------------
+
+type c03ConfirmSnap struct {
+	confirms map[string]string // hex(key below the BatchConfirmKey prefix) -> hex(value)
+	regKeys  map[string]string // validator account bech32 -> registered eth address on ZooChain (lower case)
+}
+
+func (d *c03Dir) regKey(ctx sdk.Context, acc sdk.AccAddress, chain string) string {
+	infos, err := d.w.FA.App().ValsetKeeper.GetValidatorChainInfos(ctx, sdk.ValAddress(acc))
+	if err != nil {
+		return ""
+	}
+	for _, ci := range infos {
+		if ci != nil && ci.GetChainReferenceID() == chain {
+			return strings.ToLower(ci.GetAddress())
+		}
+	}
+	return ""
+}
+
+func (d *c03Dir) confirmSnapshot() c03ConfirmSnap {
+	s := c03ConfirmSnap{confirms: map[string]string{}, regKeys: map[string]string{}}
+	ctx := d.w.FA.CtxCached()
+	d.w.FA.App().SkywayKeeper.IterateBatchConfirms(ctx, func(key []byte, cf skywaytypes.MsgConfirmBatch) bool {
+		bz, err := cf.Marshal()
+		if err != nil {
+			bz = []byte(err.Error())
+		}
+		s.confirms[hex.EncodeToString(key)] = hex.EncodeToString(bz)
+		return false
+	})
+	for _, v := range d.w.FA.Vals {
+		s.regKeys[v.Addr.String()] = d.regKey(ctx, v.Addr, ZooChain)
+	}
+	return s
+}
+
+// c03Recover: address whose key made sig over item (EIP-191 personal message over the 32-byte
+// checkpoint, v in {0,1,27,28}); go-ethereum only.
+func c03Recover(item, sig []byte) (ethcommon.Address, bool) {
+	if len(sig) != 65 {
+		return ethcommon.Address{}, false
+	}
+	s := append([]byte(nil), sig...)
+	if s[64] == 27 || s[64] == 28 {
+		s[64] -= 27
+	}
+	h := ethcrypto.Keccak256(append([]byte("\x19Ethereum Signed Message:\n32"), item...))
+	pub, err := ethcrypto.SigToPub(h, s)
+	if err != nil || pub == nil {
+		return ethcommon.Address{}, false
+	}
+	return ethcrypto.PubkeyToAddress(*pub), true
+}
+
+// checkConfirms evaluates, for every batch confirmation that appeared or changed since `before`:
+// it is filed under a validator V, names V's registered key and carries V's key's signature over
+// exactly the batch's checkpoint.
+func (d *c03Dir) checkConfirms(before c03ConfirmSnap, input string) {
+	after := d.confirmSnapshot()
+	a := d.w.FA.App()
+	ctx := d.w.FA.CtxCached()
+	var keys []string
+	for k, v := range after.confirms {
+		if before.confirms[k] != v {
+			keys = append(keys, k)
+		}
+	}
+	sort.Strings(keys)
+	for _, k := range keys {
+		d.r.Stat("confirm-stored")
+		kb, _ := hex.DecodeString(k)
+		vb, _ := hex.DecodeString(after.confirms[k])
+		var cf skywaytypes.MsgConfirmBatch
+		if err := a.AppCodec().Unmarshal(vb, &cf); err != nil || len(kb) < 20 {
+			d.r.Hit("confirm-not-validators-own-signature", "undecodable batch confirmation "+k, input)
+			continue
+		}
+		filed := sdk.AccAddress(kb[len(kb)-20:])
+		who := fmt.Sprintf("principal %d", d.pidOfAddr(filed.String()))
+		bad := func(why string) {
+			d.r.Hit("confirm-not-validators-own-signature", fmt.Sprintf("batch confirmation (nonce %d) filed under %s: %s", cf.Nonce, who, why), input)
+		}
+		if cf.Orchestrator != filed.String() {
+			bad("its orchestrator field names somebody else")
+			continue
+		}
+		contract, err := skywaytypes.NewEthAddress(cf.TokenContract)
+		if err != nil {
+			bad("token contract undecodable")
+			continue
+		}
+		batch, err := a.SkywayKeeper.GetOutgoingTXBatch(ctx, *contract, cf.Nonce)
+		if err != nil || batch == nil {
+			bad("there is no such batch")
+			continue
+		}
+		ci, err := a.EvmKeeper.GetChainInfo(ctx, batch.ChainReferenceID)
+		if err != nil {
+			bad("the batch's chain is unknown")
+			continue
+		}
+		item, err := batch.GetCheckpoint(string(ci.SmartContractUniqueID))
+		if err != nil {
+			bad("no checkpoint: " + err.Error())
+			continue
+		}
+		reg := []string{d.regKey(ctx, filed, batch.ChainReferenceID)}
+		if pre, ok := before.regKeys[filed.String()]; ok && batch.ChainReferenceID == ZooChain && pre != reg[0] {
+			reg = append(reg, pre)
+		}
+		sig, _ := hex.DecodeString(cf.Signature)
+		rec, okRec := c03Recover(item, sig)
+		backed := false
+		for _, k := range reg {
+			if k != "" && ethcommon.IsHexAddress(k) && ethcommon.IsHexAddress(cf.EthSigner) &&
+				ethcommon.HexToAddress(k) == ethcommon.HexToAddress(cf.EthSigner) && okRec && rec == ethcommon.HexToAddress(k) {
+				backed = true
+			}
+		}
+		if !backed {
+			recS := "nothing"
+			if okRec {
+				recS = fmt.Sprintf("the key of principal %d", d.byEth[strings.ToLower(rec.Hex())])
+			}
+			bad(fmt.Sprintf("not backed by that validator's own external-chain signature over the batch checkpoint (registered key %v = key of principal %d, eth_signer = key of principal %d, signature recovers to %s)",
+				reg, d.byEth[reg[0]], d.byEth[strings.ToLower(cf.EthSigner)], recS))
+		}
+	}
+}
+
+// freshBatch builds a new outgoing batch nobody has confirmed yet.
+func (d *c03Dir) freshBatch() (nonce uint64, cp, wrongDomain []byte, ok bool) {
+	w := d.w
+	a := w.FA.App()
+	err := w.God(func(ctx sdk.Context) error {
+		dest, _ := skywaytypes.NewEthAddress("0x00000000000000000000000000000000000000D5")
+		if _, err := a.SkywayKeeper.AddToOutgoingPool(ctx, w.FA.User(2).Addr, *dest, sdk.NewInt64Coin(FABondDenom, 900+int64(w.next())), ZooChain); err != nil {
+			return err
+		}
+		b, err := a.SkywayKeeper.BuildOutgoingTXBatch(ctx, ZooChain, zooBridgeContract(), 1)
+		if err != nil {
+			return err
+		}
+		if b == nil {
+			return fmt.Errorf("no batch built")
+		}
+		ci, err := a.EvmKeeper.GetChainInfo(ctx, ZooChain)
+		if err != nil {
+			return err
+		}
+		nonce = b.BatchNonce
+		if cp, err = b.GetCheckpoint(string(ci.SmartContractUniqueID)); err != nil {
+			return err
+		}
+		wrongDomain, err = b.GetCheckpoint("another-compass")
+		return err
+	})
+	if err != nil {
+		d.t.Logf("C03: freshBatch: %v", err)
+		return 0, nil, nil, false
+	}
+	return nonce, cp, wrongDomain, true
+}
+
+// confirmHistory: one `cbh` line.
+func (d *c03Dir) confirmHistory() {
+	w, fa, rng, r := d.w, d.w.FA, d.rng, d.r
+	a := fa.App()
+	nonce, cp, wrongDomain, ok := d.freshBatch()
+	if !ok {
+		r.Stat("cbh:no-batch")
+		return
+	}
+	otherCP := d.prevCP
+	if otherCP == nil {
+		otherCP = wrongDomain
+	}
+	d.prevCP = cp
+	ctx0 := fa.CtxCached()
+	var keyToks []string
+	for _, v := range d.vals {
+		k := d.byEth[d.regKey(ctx0, v.acc.Addr, ZooChain)]
+		val, err := a.StakingKeeper.GetValidator(ctx0, v.acc.ValAddr())
+		if err != nil || !(val.IsBonded() || val.IsUnbonding()) {
+			k = 0 // confirmations of unbonded validators are refused
+		}
+		keyToks = append(keyToks, fmt.Sprintf("%d:%d", v.pid, k))
+	}
+	pickVal := func(not ...int) c03Principal {
+		for {
+			p := d.vals[rng.Intn(len(d.vals))]
+			okp := true
+			for _, n := range not {
+				if n == p.pid {
+					okp = false
+				}
+			}
+			if okp {
+				return p
+			}
+		}
+	}
+	var toks, outs []string
+	line := func() string { return fmt.Sprintf("cbh %s %s", strings.Join(keyToks, ","), strings.Join(toks, " ")) }
+	steps := 3 + rng.Intn(4)
+	nontrivial := false
+	for i := 0; i < steps; i++ {
+		O := pickVal()
+		S, E, K := O, O, O // sender, eth signer (whose address is named), signing key
+		tgt, item := "b", "b"
+		Cr, g := c03Principal{}, false
+		garbage := false
+		x := rng.Intn(100)
+		switch {
+		case x < 20: // what pigeon sends
+			r.Stat("cbh:honest")
+		case x < 35: // somebody else relays the validator's own signature
+			if rng.Intn(2) == 0 {
+				S = pickVal(O.pid)
+			} else {
+				S = d.users[rng.Intn(len(d.users))]
+			}
+			r.Stat("cbh:relayed")
+		case x < 60: // filed under O, everything else (key, signature, sender) is S's own
+			S = pickVal(O.pid)
+			E, K = S, S
+			r.Stat("cbh:other-orchestrator-own-signature")
+		case x < 70:
+			S = pickVal(O.pid)
+			K = S // O's address named, S's signature
+			r.Stat("cbh:crossed-key")
+		case x < 75:
+			S = pickVal(O.pid)
+			E = S // S's address named, O's signature
+			r.Stat("cbh:crossed-signer")
+		case x < 85: // the right key over the wrong item
+			item = []string{"o", "w"}[rng.Intn(2)]
+			if rng.Intn(2) == 0 {
+				S = pickVal(O.pid)
+			}
+			r.Stat("cbh:wrong-item")
+		case x < 90: // filed under an account that is no validator
+			O = d.users[rng.Intn(len(d.users))]
+			S = O
+			E = pickVal()
+			K = E
+			if rng.Intn(2) == 0 {
+				S = E
+			}
+			r.Stat("cbh:non-validator")
+		case x < 93:
+			tgt = "n"
+			r.Stat("cbh:no-such-batch")
+		case x < 97:
+			garbage = true
+			r.Stat("cbh:garbage-signature")
+		default: // the ante chain: in O's name without / with a fee grant
+			S = pickVal(O.pid)
+			Cr, g = O, rng.Intn(2) == 0
+			if rng.Intn(2) == 0 {
+				E, K = S, S
+			}
+			r.Stat("cbh:in-orchestrators-name")
+		}
+		if Cr.acc == nil {
+			Cr = S
+		}
+		form := 0
+		if rng.Intn(10) < 3 {
+			form = 27
+		}
+		signed := map[string][]byte{"b": cp, "o": otherCP, "w": wrongDomain}[item]
+		var sig []byte
+		kTok := fmt.Sprint(K.pid)
+		if garbage {
+			sig = make([]byte, 65)
+			rng.Read(sig)
+			sig[64] = byte(rng.Intn(2))
+			kTok = "0"
+		} else {
+			var err error
+			if sig, err = ethcrypto.Sign(ethcrypto.Keccak256(append([]byte("\x19Ethereum Signed Message:\n32"), signed...)), K.acc.EthPriv); err != nil {
+				d.t.Fatalf("sign: %v", err)
+			}
+		}
+		sig[64] += byte(form)
+		n := nonce
+		if tgt == "n" {
+			n = nonce + 1_000_000
+		}
+		msg := &skywaytypes.MsgConfirmBatch{Nonce: n, TokenContract: ZooBridgeERC20, EthSigner: E.acc.EthAddr.Hex(), Orchestrator: O.acc.Addr.String(),
+			Signature: hex.EncodeToString(sig)}
+		if g {
+			if gr := fa.GrantFee(Cr.acc, S.acc); !gr.OK() {
+				d.t.Fatalf("grant: %s %s", gr.Log, gr.BlockErr)
+			}
+			d.grants[[2]int{Cr.pid, S.pid}] = true
+		}
+		before := d.confirmSnapshot()
+		res := w.Deliver(S.acc, Cr.acc, msg)
+		toks = append(toks, fmt.Sprintf("%d;%d;%d;%d;%d;%s;%s;%s;%d", S.pid, Cr.pid, map[bool]int{false: 0, true: 1}[g], O.pid, E.pid, kTok, tgt, item, form))
+		d.checkConfirms(before, line())
+		if res.OK() {
+			outs = append(outs, "ok")
+			nontrivial = true
+			r.Stat("cbh:ok")
+		} else {
+			outs = append(outs, "rej")
+			r.Stat("cbh:rej")
+		}
+		if form == 27 {
+			r.Stat("cbh:v27")
+		}
+		if g {
+			rv := feegrant.NewMsgRevokeAllowance(Cr.acc.Addr, S.acc.Addr)
+			if gr := fa.DeliverTx(Cr.acc, &rv); !gr.OK() {
+				d.t.Fatalf("revoke: %s %s", gr.Log, gr.BlockErr)
+			}
+			delete(d.grants, [2]int{Cr.pid, S.pid})
+		}
+	}
+	// the confirmation set of the batch as the chain has it: <filed under>/<key named>
+	var set []string
+	if confs, err := a.SkywayKeeper.GetBatchConfirmByNonceAndTokenContract(fa.CtxCached(), nonce, zooBridgeContract()); err == nil {
+		for _, c := range confs {
+			k := d.byEth[strings.ToLower(c.EthSigner)]
+			if k == 0 {
+				k = 1
+			}
+			set = append(set, fmt.Sprintf("%d/%d", d.pidOfAddr(c.Orchestrator), k))
+		}
+	}
+	sort.Strings(set)
+	fin := "-"
+	if len(set) > 0 {
+		fin = strings.Join(set, ",")
+	}
+	r.Op(line(), strings.Join(outs, ",")+"|"+fin)
+	r.Stat("sc:confirm-history")
+	r.Case(line(), nontrivial)
 }
